@@ -63,6 +63,11 @@ def table(rng):
             G("bipartite", "complete", 3, 2), functional="--functional" in fl, onto="--onto" in fl, formula_class=fc))
         add(["php", "shift", 4, 3, 0, 1] + fl, lambda fc, fl=fl: cnfgen.GraphPigeonholePrinciple(
             G("bipartite", "shift", 4, 3, 0, 1), functional="--functional" in fl, onto="--onto" in fl, formula_class=fc))
+    from cnfgen.graphs import bipartite_random_left_regular
+    for fl in ([], ["--functional"], ["--onto"]):
+        add(["php", 5, 4, 2] + fl, lambda fc, fl=fl: cnfgen.GraphPigeonholePrinciple(
+            bipartite_random_left_regular(5, 4, 2), functional="--functional" in fl, onto="--onto" in fl,
+            formula_class=fc), True)
     add(["bphp", 5, 3], lambda fc: cnfgen.BinaryPigeonholePrinciple(5, 3, formula_class=fc))
     add(["bphp", 3, 4], lambda fc: cnfgen.BinaryPigeonholePrinciple(3, 4, formula_class=fc))
     add(["rphp", 3, 2, 4], lambda fc: cnfgen.RelativizedPigeonholePrinciple(3, 2, 4, formula_class=fc))
